@@ -48,7 +48,7 @@ def render(batch, fmt):
             return repr([[json_of(st.tree, full=True) for st in sent] for sent in batch])
         return to_string(batch, format=fmt)
     except Exception as ex:
-        return ('EXC', type(ex).__name__, str(ex)[:80])
+        return ('EXC', type(ex).__name__)          # (a message may name objects by address)
 
 
 def snapshot(batch):
